@@ -232,12 +232,7 @@ def run_case(ctx, desc):
         unambiguous = len({tuple(sorted(n for _, n in c[0])) for c in cands}) == 1
         for perm in itertools.permutations(q):
             it = g.integrate(arr, list(perm) if len(perm) > 1 or ctx.evaluations % 2 else perm[0])
-            if unambiguous:
-                w = want
-            else:
-                with warnings.catch_warnings():
-                    warnings.simplefilter("ignore")
-                    w = (arr * g.get_metric(arr, list(perm))).sum(sdims)
+            w = want  # "in any axis order": one metric, whatever the order in which the axes are listed
             if not same_by_name(it, w):
                 ctx.violation("integrate-definition", f"integrate over {perm} != sum(data*metric) (unambiguous={unambiguous})")
                 break
